@@ -11,7 +11,11 @@ KEYWORDS = set("as break const continue crate else enum extern false fn for if i
 
 
 def snake(s):
-    s = re.sub(r"([a-z0-9])([A-Z])", r"\1_\2", s.replace("-", "_")).lower()
+    # heck::ToSnakeCase: a boundary before an upper-case letter that follows a lower-case letter / digit,
+    # and before the last upper-case letter of a run that is followed by a lower-case letter (BTreeSet -> b_tree_set)
+    s = s.replace("-", "_")
+    s = re.sub(r"([A-Z]+)([A-Z][a-z])", r"\1_\2", s)
+    s = re.sub(r"([a-z0-9])([A-Z])", r"\1_\2", s).lower()
     return s + "_" if s in KEYWORDS else s
 
 
@@ -42,7 +46,21 @@ def lab_flags(cfg):
     return f
 
 
-def driver_source(ir, cfg, plain_types=(), registry=True):
+def service_arms(ir, cfg):
+    strip = cfg.get("strip")
+    arms = []
+    for s in ir.get("services", []):
+        pkg, n = s["serviceName"]["package"], s["serviceName"]["name"]
+        mod = "::".join(["gen"] + module_path(pkg, strip))
+        fm = mod + "::" + snake(n)      # the appended driver functions live in the service's own module
+        arms.append('        "%s/sync" => Some(labrt::svc::run_call_sync(&c.call_spec(), %s::verif_endpoints_sync_%s, |lb, m, a| %s::verif_call_sync_%s(&<%s::%sClient<_> as conjure_http::client::Service<_>>::new(lb), m, a))),'
+                    % (n, fm, n, fm, n, mod, n))
+        arms.append('        "%s/async" => Some(labrt::svc::run_call_async(&c.call_spec(), %s::verif_endpoints_async_%s, |lb, m, a| labrt::block_on(%s::verif_call_async_%s(&<%s::%sAsyncClient<_> as conjure_http::client::AsyncService<_>>::new(lb), m, a)))),'
+                    % (n, fm, n, fm, n, mod, n))
+    return arms
+
+
+def driver_source(ir, cfg, plain_types=(), registry=True, services=False):
     """main.rs of a lab crate: names every declared item by its full module path (a missing
     re-export is a compile error) and dispatches cases to the generic runners in labrt::lab."""
     strip = cfg.get("strip")
@@ -67,6 +85,7 @@ def driver_source(ir, cfg, plain_types=(), registry=True):
     body = ["#![allow(warnings)]", "#[path = \"gen/mod.rs\"]", "mod gen;", ""] + uses + ["",
             "fn dispatch(c: &labrt::lab::CaseIn) -> Option<serde_json::Value> {", "    match c.ty.as_str() {"]
     body += arms if registry else []
+    body += service_arms(ir, cfg) if services else []
     body += ["        _ => None,", "    }", "}", "", "fn main() {", "    labrt::lab::run_main(dispatch);", "}", ""]
     return "\n".join(body)
 
@@ -82,6 +101,7 @@ conjure-error = { path = "/repo/conjure-error" }
 conjure-http = { path = "/repo/conjure-http" }
 conjure-serde = { path = "/repo/conjure-serde" }
 serde = "1.0"
+http = "1.0"
 labrt = { path = "%s/harness/labrt" }
 serde_json = "1.0"
 """
@@ -131,6 +151,10 @@ def build_labs(key, specs):
         if res.gen[name]["status"] != "ok":
             shutil.rmtree(d)
             continue
+        if sp.get("drive"):
+            r = subprocess.run([GENRUN, "drive", os.path.join(d, "src", "gen")], stdout=subprocess.PIPE, stderr=subprocess.PIPE, text=True, env=ENV)
+            if r.returncode != 0 or '"ok"' not in r.stdout:
+                raise Inconclusive("genrun drive failed: " + (r.stdout + r.stderr)[-600:])
         with open(os.path.join(d, "Cargo.toml"), "w") as f:
             f.write(CARGO_MEMBER % (name, VERIF))
         with open(os.path.join(d, "src", "main.rs"), "w") as f:
